@@ -376,6 +376,14 @@ def fixeddict(name, *entries, **kwargs):
 
     __dict__["update"] = update
 
+    def __ior__(self, other):
+        # In-place merge (Python 3.9+ 'd |= other') must also reject
+        # undeclared keys
+        self.update(other)
+        return self
+
+    __dict__["__ior__"] = __ior__
+
     def __repr__(self):
         return "{}({{{}}})".format(
             self.__class__.__name__,
